@@ -7,7 +7,7 @@ from core import Broken
 ID = 'C14'
 GENMODS = ['gen_store']
 TARGET = 'props/C14.vo'
-PROOF_FILES = ['proof/C14.v', 'props/C14.v']
+PROOF_FILES = ['proof/C14.v', 'proof/IniProofs.v', 'proof/IniFile.v', 'proof/IniFile2.v', 'proof/StoreText.v', 'props/C14.v']
 AXIOMS = []
 TRUSTED = [
     'Coq 8.16.1 kernel; vm_compute for the correspondence evaluation; no axioms',
@@ -199,13 +199,17 @@ def correspond(ctx):
             'ops_per_case': {k: sum(1 for c in cases if len(c['ovr']) + len(c['adds']) == k) for k in range(0, 7)},
             'invalid_expected': sum(1 for zs in res if zs[0] == 1), 'removals': sum(1 for c in cases for o in c['ovr'] if o[0] == 'remove'),
             'models_with_table_form': sum(1 for c in cases if any(s[0] == 'Table-Form' for s, _ in c['model']['sections']))}
-    return {'evaluations': len(cases), 'cases': allc, 'nontrivial': core.distinct_count([c for c in cases if c['ovr'] or c['adds']]),
+    # down to characters (proof/StoreText.v, c14_edited_file_text): the hand-edited files, printed, against the raw parser
+    edited = [m for m in (hand_edit(c['model'], ops_in_order(c)) for c in cases) if m is not None]
+    tdis, tstats = sc.check_store_text(edited[:(120 if ctx['thorough'] else 30)], 'C14t'); dis += tdis; dist.update(tstats)
+    return {'evaluations': len(cases) + tstats['store_text_files'], 'cases': allc, 'nontrivial': core.distinct_count([c for c in cases if c['ovr'] or c['adds']]),
             'rule': 'generated pair/EAM/FS models (shuffled sections, keys printed with varying whitespace) and sequences of 0..6 override/remove/add operations on any section (repeated keys, removal of a section\'s last item, invalid ones) '
                     'through ConfigParser(overrides=, additional=) (resulting store compared) and the potable command line (--list-items output compared); non-trivial = at least one operation',
             'samples': [cases[0]], 'distribution': dist, 'disagreements': dis[:20], 'oracle_cases': cases}
 
 def oracle(case):
     """the property itself: tabulating with the operations == tabulating the hand-edited file"""
+    if case.get('kind') in ('ini', 'store_text'): return []      # text-level correspondence cases: no verdict of this property's statement
     from atsim.potentials.config import ConfigParser, ConfigParserOverrideTuple as O
     fails = []
     ops = ops_in_order(case)
